@@ -40,7 +40,9 @@ Definition matrix_input_ok3 (o : oracles) (ord : hord) (sw : switches) (dt : det
   negb (known_d17 o ord sw dt) && negb (known_d16 ord sw dt) &&
   forallb Scope.cmp_reads (all_trees pm) &&
   match_safe ord false (shake_fuel (fst pm)) (fst pm) &&
-  forallb (fun b : str * expr => match_safe ord (body_neg pm) (shake_fuel (snd b)) (snd b)) (snd pm) &&
+  forallb (fun b : str * expr =>
+             forallb (fun m => match_safe ord (body_neg pm) (shake_fuel m) m) (Scope2.entry_trees (snd b)))
+          (snd pm) &&
   (sw_coalesce sw || Scope.no_match (fst pm)).
 Definition c01_scope_quant_all (o : oracles) (ord : hord) (sw : switches) (dt : detection) : bool :=
   Scope2.c01_scope_nested ord (Scope.sw_without_matrix sw) dt &&
